@@ -295,6 +295,9 @@ def run_check(mod, tier: str, replay: Optional[str]) -> int:
     if nshards == 1:
         results = [_shard_entry(args[0])]
     else:
+        import gc
+        gc.collect()
+        gc.freeze()   # keep the preloaded schema out of the children's GC (less COW)
         ctx = multiprocessing.get_context('fork')
         with ctx.Pool(min(nshards, os.cpu_count() or 1)) as pool:
             results = pool.map(_shard_entry, args, chunksize=1)
